@@ -5,6 +5,18 @@ use crate::ser::*;
 use crate::util::*;
 use std::collections::{BTreeMap, HashMap};
 
+/// the length prefix stored in front of active block `bi`: the payload length, unless the scenario asks for
+/// a prefix that differs from it (`params.size_prefix_delta`, applied to every other block) — the program
+/// reports the stored prefix and never uses it to delimit the block
+pub fn stored_size(scn: &Scenario, bi: usize, len: usize) -> u64 {
+    let d = scn.params.get("size_prefix_delta").and_then(|v| v.as_i64()).unwrap_or(0);
+    if d != 0 && bi % 2 == 1 {
+        (len as i64 + d).max(0) as u64
+    } else {
+        len as u64
+    }
+}
+
 pub struct Model<'a> {
     pub scn: &'a Scenario,
     pub built: Built,
@@ -132,7 +144,7 @@ impl<'a> Model<'a> {
                     bh,
                     h,
                     b.version,
-                    bb.bytes.len(),
+                    stored_size(self.scn, bi, bb.bytes.len()),
                     hex_rev(&bb.prev),
                     hex_rev(&bb.merkle),
                     b.time,
@@ -279,7 +291,7 @@ impl<'a> Model<'a> {
             let h = self.scn.base_height + bi as u64;
             x.blocks += 1;
             x.txs += b.txs.len() as u64;
-            x.sum_block_size += bb.bytes.len() as u128;
+            x.sum_block_size += stored_size(self.scn, bi, bb.bytes.len()) as u128;
             for (ti, t) in b.txs.iter().enumerate() {
                 let txid = hex_rev(&bb.txs[ti].txid);
                 let is_cb = t.inputs.len() == 1 && t.inputs[0].prev_txid.0.iter().all(|z| *z == 0) && t.inputs[0].prev_index == 0xffff_ffff;
